@@ -442,11 +442,11 @@ example : ∀ x ∈ demoActs, ActOk x := by
   rcases hx with rfl | rfl | rfl | rfl | rfl | rfl | rfl <;> simp [ActOk, OpOk, ResumeOk]
 
 example : (runUntil (nStep demo) (⟨.created demo.init, false, false⟩, none) demoActs).filterMap id
-    = [.returned 5, .pending 100, .raised (.runtime Proto.rtAlreadyRunning),
+    = [.returned 5, .pending (.plain 100), .raised (.runtime Proto.rtAlreadyRunning),
        .raised (.runtime Proto.rtAlreadyRunning), .returned 7, ignoredGE] := by decide
 
 example : (runUntil (gStep demo) (⟨.created demo.init, fun _ => 0, false⟩, none) demoActs).filterMap id
-    = [.returned 5, .pending 100, .raised (.runtime Proto.rtAlreadyRunning),
+    = [.returned 5, .pending (.plain 100), .raised (.runtime Proto.rtAlreadyRunning),
        .raised (.runtime Proto.rtAlreadyRunning), .returned 7, ignoredGE] := by decide
 
 example : Inv (⟨.created demo.init, fun _ => 0, false⟩ : Goi demo) ⟨.created demo.init, false, false⟩ none :=
